@@ -841,6 +841,10 @@ def _atom_trig(p, term):
     """(cos, sin) of an atomic angle term."""
     i = term.get_id()
     p.keep.append(term)
+    if z3.is_app(term) and term.decl().kind() == z3.Z3_OP_ITE:
+        cnd, a, b = term.children()
+        (ca, sa), (cb, sb) = trig(a), trig(b)
+        return z3.If(cnd, ca, cb), z3.If(cnd, sa, sb)
     if ("alias", i) in p.trig:
         return trig(p.trig[("alias", i)])
     if ("atom", i) in p.trig:
@@ -900,6 +904,12 @@ def trig(t):
     p.keep.append(ts)
     if key in p.trig:
         return p.trig[key]
+    if z3.is_app(ts) and ts.decl().kind() == z3.Z3_OP_ITE:
+        cnd, a, b = ts.children()
+        (ca, sa), (cb, sb) = trig(a), trig(b)
+        res = (z3.If(cnd, ca, cb), z3.If(cnd, sa, sb))
+        p.trig[key] = res
+        return res
     atoms, const = _lin(ts)
     # whole turns: 2*pi*j with j an integer-valued term do not change (cos, sin)
     for i, (term, k) in list(atoms.items()):
